@@ -36,6 +36,9 @@ type churnPlan struct {
 	MaxDelay int          `json:"max_delay_us"`
 	DelayPct int          `json:"delay_pct"`
 	Seed     int64        `json:"seed"`
+	// SlowReleaseMs > 0: every FinishJoin/FinishLeave(release) is delivered that much later, so
+	// membership locks are held long enough for competing attempts to run out of retries
+	SlowReleaseMs int `json:"slow_release_ms,omitempty"`
 }
 
 func genChurnPlan(maxInitial, maxPhases, maxActions int, anchors ...uint64) *rapid.Generator[churnPlan] {
@@ -52,6 +55,7 @@ func genChurnPlan(maxInitial, maxPhases, maxActions int, anchors ...uint64) *rap
 			DelayPct: rapid.SampledFrom([]int{0, 30, 80}).Draw(t, "delayPct"),
 			Seed:     rapid.Int64Range(1, 1<<40).Draw(t, "netSeed"),
 		}
+		p.SlowReleaseMs = rapid.SampledFrom([]int{0, 0, 0, 40, 90}).Draw(t, "slowReleaseMs")
 		nPhases := rapid.IntRange(1, maxPhases).Draw(t, "phases")
 		all := append([]uint64{}, initial...)
 		for ph := 0; ph < nPhases; ph++ {
@@ -260,10 +264,11 @@ func (r *simRing) allMembers() []*ringsim.Member {
 
 func newChurnRing(plan churnPlan, keepLog bool) *simRing {
 	return newSimRing(ringsim.Config{
-		Seed:      plan.Seed,
-		MaxDelay:  time.Duration(plan.MaxDelay) * time.Microsecond,
-		DelayProb: float64(plan.DelayPct) / 100,
-		KeepLog:   keepLog,
+		Seed:       plan.Seed,
+		MaxDelay:   time.Duration(plan.MaxDelay) * time.Microsecond,
+		DelayProb:  float64(plan.DelayPct) / 100,
+		KeepLog:    keepLog,
+		SlowMethod: "Finish*", SlowArg: "release", SlowDelay: time.Duration(plan.SlowReleaseMs) * time.Millisecond,
 	})
 }
 
